@@ -36,6 +36,7 @@ import (
 
 const longWait = 10 * time.Second
 const notifWait = 2 * time.Second
+const returnWait = 3 * time.Second
 
 var grace = 3 * time.Millisecond
 
@@ -754,6 +755,7 @@ type wsDriver struct {
 	pause      map[int]chan chan struct{} // per consumer: send a channel to make it stop reading until that channel is closed
 	stop       chan struct{}              // closed at the end of the sequence
 	oracle     []string                   // violations of the routing clause seen in this sequence
+	hangSeen   bool                       // a call that had to return did not
 }
 
 func (d *wsDriver) add(coq, desc string) {
@@ -889,7 +891,9 @@ func (d *wsDriver) observeCall(cr callRes) string {
 // collect returns of calls / subscribes / unsubscribes; expect tells how many of each must come
 func (d *wsDriver) collect(expCalls []int, expSubs []int, expUnsubs []int) {
 	waitFor := func(pending func() bool) {
-		deadline := time.Now().Add(longWait)
+		// what is waited for here has already been handed to the caller's goroutine (a response in its channel, the
+		// reconnect error, a cancelled context): only its scheduling remains
+		deadline := time.Now().Add(returnWait)
 		for pending() && time.Now().Before(deadline) {
 			d.drain(200 * time.Microsecond)
 		}
@@ -910,6 +914,7 @@ func (d *wsDriver) collect(expCalls []int, expSubs []int, expUnsubs []int) {
 		if _, still := d.outCalls[k]; still {
 			d.add(fmt.Sprintf("WCallHang %d", k), fmt.Sprintf("call k=%d did not return", k))
 			delete(d.outCalls, k)
+			d.hangSeen = true // the sequence is a failing one already: it ends here (no further waiting)
 		}
 	}
 	waitFor(func() bool {
@@ -1331,7 +1336,7 @@ func runWSCase(r *cv.Rand, st *cv.Stats, nOps int, profile int) (string, wsDesc,
 	nOps += len(plan)
 	// a violation of the routing oracle ends the sequence: it is reported with the history up to here (going on
 	// could make a broken client send on a closed channel, which ends the process)
-	for step := 0; step < nOps && d.failed == "" && len(d.oracle) == 0; step++ {
+	for step := 0; step < nOps && d.failed == "" && len(d.oracle) == 0 && !d.hangSeen; step++ {
 		c := r.Intn(100)
 		h := noHint
 		for len(plan) > 0 {
@@ -1884,10 +1889,10 @@ func runWSCase(r *cv.Rand, st *cv.Stats, nOps int, profile int) (string, wsDesc,
 			d.subsCheck()
 		}
 	}
-	if d.failed == "" && len(d.oracle) == 0 && profile%3 == 2 {
+	if d.failed == "" && len(d.oracle) == 0 && !d.hangSeen && profile%3 == 2 {
 		d.unsubscribeAll(ctx)
 	}
-	if d.failed == "" && len(d.oracle) == 0 {
+	if d.failed == "" && len(d.oracle) == 0 && !d.hangSeen {
 		d.subsCheck()
 		if profile%2 == 0 {
 			// finish: drop once more, everything outstanding must complete
